@@ -120,7 +120,7 @@ func addWriter(r *Rng, p *Program) {
 	}
 	wi := 0 // the first task has no task dependencies, so readers may depend on it without creating a cycle
 	f := Pick(r, chLiteral)
-	p.Tasks[wi].Writes = []FileWrite{{Path: f, Content: Pick(r, []string{"gen1", "gen2"})}}
+	p.Tasks[wi].Writes = []FileWrite{{Path: f, Content: Pick(r, []string{"gen1", "gen2", ""})}} // "": echo writes a lone newline, the size of the pool contents
 	if r.Chance(1, 2) { // formatter style: it also depends on the file it rewrites
 		p.Tasks[wi].Deps = dedupDeps(append(p.Tasks[wi].Deps, Dep{"file", f}))
 	}
